@@ -3,6 +3,7 @@ package rules
 import (
 	"fmt"
 	"go/token"
+	"go/types"
 	"sort"
 	"strings"
 
@@ -15,11 +16,11 @@ import (
 func init() {
 	Register(&Rule{
 		ID: "C26", Section: "5 C26",
-		Technique: "table agreement (HopHeaders / reqWriteExcludeHeader against the RFC 7230 list), dominance of hopByHopHeaderRemove over clusterInvoke/RoundTrip on the same request object, back-edge guard census of the removal loop, who-may-write census of Request.OutRequest, backward value flow from Header.Del to the Connection header value, use census of the package-level tables (read-only after initialisation: no store, element write, append over the shared backing array, escape), who-may-overwrite census of bfe_http.Request objects (whole-struct stores and Header replacements only on objects the function allocated itself, or with a fresh map)",
+		Technique: "table agreement (HopHeaders / reqWriteExcludeHeader against the RFC 7230 list), dominance of hopByHopHeaderRemove over clusterInvoke/RoundTrip on the same request object, path census of the removal loop over the region of hopByHopHeaderRemove (iterations that skip the Del; boolean-phi sensitive, private helpers inlined), who-may-write census of Request.OutRequest, backward value flow from Header.Del to the Connection header value, use census of the package-level tables (read-only after initialisation: no store, element write, append over the shared backing array, escape), who-may-overwrite census of bfe_http.Request objects (whole-struct stores and Header replacements only on objects the function allocated itself, or with a fresh map)",
 		Meta: core.Meta{
 			Level:       "other",
-			Explanation: "Decides: (a) each of Connection, Keep-Alive, Proxy-Authenticate, Proxy-Authorization, Te, Trailer, Transfer-Encoding, Upgrade is, in canonical MIME form, an element of bfe_basic.HopHeaders or a true key of bfe_http.reqWriteExcludeHeader; Request.write emits req.Header only through WriteSubset with that exclude map and Header.sortedKeyValues appends an entry only under !exclude[key]; (b) in ReverseProxy.ServeHTTP a call hopByHopHeaderRemove(outreq, …) dominates every clusterInvoke call, outreq is the object stored in basicReq.OutRequest, the struct copy *outreq = *req happens before the removal, Request.OutRequest has no other writer in the program, clusterInvoke has no other caller, and every RoundTripper.RoundTrip call of bfe_server sends request.OutRequest; (c) inside hopByHopHeaderRemove the loop ranges over bfe_basic.HopHeaders, Header.Del is applied to outreq.Header with the loop element, and an iteration can skip the Del only when outreq.Header.Get(element) == \"\" or when element == \"Te\" and the value == \"trailers\" (exactly); every path through hopByHopHeaderRemove enters that loop (an early return is accepted only under `outgoing header empty`) and the loop is left only at its header, i.e. after the whole table; (d) some Header.Del on the outgoing header takes a key that flows from the Connection header's value through a comma split (Connection-listed fields); (e) the tables of (a) still hold their literal contents when a request is forwarded: every function of the program that touches bfe_basic.HopHeaders or bfe_http.reqWriteExcludeHeader only reads it (range/index/lookup/len, passing it to module callees that only read it) - no reassignment, element or entry write, delete, copy into, append onto the table or a sub-slice of it (the in-place filter idiom t[:0]+append rewrites the shared backing array), no store/return/capture that would let an alias escape; (f) the cleaned outgoing request is not refilled: anywhere in the program, a whole-struct store `*r = *other` of a bfe_http.Request and a store to Request.Header are accepted only when the target object was allocated by the same function (new/composite literal, also through a local variable) or - for Header - when the stored map is fresh (make, or a module function returning only fresh maps); a pre-existing object (parameter, field load such as request.OutRequest in clusterInvoke's retry loop) may be the cleaned outgoing request and the copy would re-alias the client's header map. Not covered: headers re-added by modules between the removal and RoundTrip, non-canonical keys inserted into the map directly, the outgoing Trailer/Transfer-Encoding lines that Request.write generates itself for the request body, upgrade (websocket) requests, backends spoken to through the HTTP/2 or FastCGI transports (they do not use reqWriteExcludeHeader).",
-			RuleText:    "obligations = one per required header name, one per clusterInvoke/RoundTrip call site, one per writer of Request.OutRequest, one per back edge of the removal loop that bypasses Del, the loop-bypass and early-exit queries per removal loop, the Del target/key, the exclude-map use in Request.write, the Connection-token flow, one per function using a hop-by-hop table (read-only), one per whole-struct store of a bfe_http.Request and per store to Request.Header in the program (fresh target or fresh map)",
+			Explanation: "Decides: (a) each of Connection, Keep-Alive, Proxy-Authenticate, Proxy-Authorization, Te, Trailer, Transfer-Encoding, Upgrade is, in canonical MIME form, an element of bfe_basic.HopHeaders or a true key of bfe_http.reqWriteExcludeHeader; Request.write emits req.Header only through WriteSubset with that exclude map and Header.sortedKeyValues appends an entry only under !exclude[key]; (b) in ReverseProxy.ServeHTTP a call hopByHopHeaderRemove(outreq, …) dominates every clusterInvoke call, outreq is the object stored in basicReq.OutRequest, the struct copy *outreq = *req happens before the removal, Request.OutRequest has no other writer in the program, clusterInvoke has no other caller, and every RoundTripper.RoundTrip call of bfe_server sends request.OutRequest; (c) inside hopByHopHeaderRemove the loop ranges over bfe_basic.HopHeaders, Header.Del is applied to outreq.Header with the loop element, and an iteration can skip the Del only when outreq.Header.Get(element) == \"\" or when element == \"Te\" and the value == \"trailers\" (exactly); every path through hopByHopHeaderRemove enters that loop (an early return is accepted only under `outgoing header empty`) and the loop is left only at its header, i.e. after the whole table; clause (c) is decided on the region of hopByHopHeaderRemove (the function plus the unexported helpers that are called from nowhere else, which the path search inlines at their call sites with parameters bound to arguments and the result bound to what the helper returned), values are identified structurally (the element of bfe_basic.HopHeaders whether the loop is a range or an index loop, the Header field of the first parameter, the result of Header.Get on them), and a skipped iteration is decided per path from the loop header back to the loop header that avoids the Del - it must establish `value == \"\"` / `len(value) == 0`, or `element == \"Te\"` together with `value == \"trailers\"`, or a comparison of the element with a name the table literal does not list (a branch that can never be taken) - however the tests are spelled (continue, nested positive conditions, named booleans, a boolean helper); (d) some Header.Del on the outgoing header takes a key that flows from the Connection header's value through a comma split (Connection-listed fields); (e) the tables of (a) still hold their literal contents when a request is forwarded: every function of the program that touches bfe_basic.HopHeaders or bfe_http.reqWriteExcludeHeader only reads it (range/index/lookup/len, passing it to module callees that only read it) - no reassignment, element or entry write, delete, copy into, append onto the table or a sub-slice of it (the in-place filter idiom t[:0]+append rewrites the shared backing array), no store/return/capture that would let an alias escape; (f) the cleaned outgoing request is not refilled: anywhere in the program, a whole-struct store `*r = *other` of a bfe_http.Request and a store to Request.Header are accepted only when the target object was allocated by the same function (new/composite literal, also through a local variable) or - for Header - when the stored map is fresh (make, or a module function returning only fresh maps); a pre-existing object (parameter, field load such as request.OutRequest in clusterInvoke's retry loop) may be the cleaned outgoing request and the copy would re-alias the client's header map. Forms the rule does not follow and therefore reports: a removal loop whose element is not read as bfe_basic.HopHeaders[i] (a copy of the table built element by element), a Del moved more than four helper levels away, the construction of the outgoing request and the removal call of clause (b) moved out of the body of ReverseProxy.ServeHTTP into a helper. Not covered: headers re-added by modules between the removal and RoundTrip, non-canonical keys inserted into the map directly, the outgoing Trailer/Transfer-Encoding lines that Request.write generates itself for the request body, upgrade (websocket) requests, backends spoken to through the HTTP/2 or FastCGI transports (they do not use reqWriteExcludeHeader).",
+			RuleText:    "obligations = one per required header name, one per clusterInvoke/RoundTrip call site, one per writer of Request.OutRequest, one per Del of the removal loop for the paths of an iteration that bypass it, the loop-bypass and early-exit queries per removal loop, the Del target/key, the exclude-map use in Request.write, the Connection-token flow, one per function using a hop-by-hop table (read-only), one per whole-struct store of a bfe_http.Request and per store to Request.Header in the program (fresh target or fresh map)",
 			Assumptions: []string{"bfe_http.Header.Get/Del canonicalise their key (textproto.MIMEHeader), so table entries are compared in canonical form", "header maps hold canonical keys (true for headers parsed by bfe_http.ReadRequest)"},
 		},
 		Run: runC26,
@@ -48,6 +49,9 @@ func init() {
 			{Name: "silent-table-through-local", Silent: true, File: "bfe_server/reverseproxy.go", Old: "	for _, h := range bfe_basic.HopHeaders {\n		hv := outreq.Header.Get(h)", New: "	hops := bfe_basic.HopHeaders\n	log.Logger.Debug(\"hop table has %d names\", len(hops))\n	for _, h := range hops {\n		hv := outreq.Header.Get(h)"},
 			{Name: "silent-empty-header-shortcut", Silent: true, File: "bfe_server/reverseproxy.go", Old: "	copiedHeaders := false\n	for _, h := range bfe_basic.HopHeaders {", New: "	copiedHeaders := false\n	if len(outreq.Header) == 0 {\n		return\n	}\n	for _, h := range bfe_basic.HopHeaders {"},
 			{Name: "silent-rename-and-log", Silent: true, File: "bfe_server/reverseproxy.go", Old: "		hv := outreq.Header.Get(h)\n		if hv == \"\" {\n			continue\n		}\n\n		if h == \"Te\" && hv == \"trailers\" {", New: "		val := outreq.Header.Get(h)\n		if len(val) == 0 {\n			continue\n		}\n		log.Logger.Debug(\"hop header %s\", h)\n		hv := val\n		if hv == \"trailers\" && h == \"Te\" {"},
+			{Name: "silent-skip-decision-in-helper", Silent: true, File: "bfe_server/reverseproxy.go", Old: "\t\thv := outreq.Header.Get(h)\n\t\tif hv == \"\" {\n\t\t\tcontinue\n\t\t}\n\n\t\tif h == \"Te\" && hv == \"trailers\" {\n\t\t\t// Issue 21096: tell backend applications that\n\t\t\t// care about trailer support that we support\n\t\t\t// trailers. (We do, but we don't go out of\n\t\t\t// our way to advertise that unless the\n\t\t\t// incoming client request thought it was\n\t\t\t// worth mentioning)\n\t\t\tcontinue\n\t\t}\n\n\t\tif !copiedHeaders {\n\t\t\toutreq.Header = make(bfe_http.Header, len(req.Header))\n\t\t\tbfe_http.CopyHeader(outreq.Header, req.Header)\n\t\t\tcopiedHeaders = true\n\t\t}\n\t\toutreq.Header.Del(h)\n\t}\n}\n", New: "\t\tif skipHopHeader(outreq, h) {\n\t\t\tcontinue\n\t\t}\n\n\t\tif !copiedHeaders {\n\t\t\toutreq.Header = make(bfe_http.Header, len(req.Header))\n\t\t\tbfe_http.CopyHeader(outreq.Header, req.Header)\n\t\t\tcopiedHeaders = true\n\t\t}\n\t\toutreq.Header.Del(h)\n\t}\n}\n\n// skipHopHeader reports whether the hop-by-hop field name stays in out.\nfunc skipHopHeader(out *bfe_http.Request, name string) bool {\n\tvalue := out.Header.Get(name)\n\tif value == \"\" {\n\t\treturn true\n\t}\n\treturn name == \"Te\" && value == \"trailers\"\n}\n"},
+			{Name: "silent-index-loop-positive-conditions", Silent: true, File: "bfe_server/reverseproxy.go", Old: "\tfor _, h := range bfe_basic.HopHeaders {\n\t\thv := outreq.Header.Get(h)\n\t\tif hv == \"\" {\n\t\t\tcontinue\n\t\t}\n\n\t\tif h == \"Te\" && hv == \"trailers\" {\n\t\t\t// Issue 21096: tell backend applications that\n\t\t\t// care about trailer support that we support\n\t\t\t// trailers. (We do, but we don't go out of\n\t\t\t// our way to advertise that unless the\n\t\t\t// incoming client request thought it was\n\t\t\t// worth mentioning)\n\t\t\tcontinue\n\t\t}\n\n\t\tif !copiedHeaders {\n\t\t\toutreq.Header = make(bfe_http.Header, len(req.Header))\n\t\t\tbfe_http.CopyHeader(outreq.Header, req.Header)\n\t\t\tcopiedHeaders = true\n\t\t}\n\t\toutreq.Header.Del(h)\n\t}\n}\n", New: "\tfor i := range bfe_basic.HopHeaders {\n\t\th := bfe_basic.HopHeaders[i]\n\t\thv := outreq.Header.Get(h)\n\t\tif hv != \"\" && !(h == \"Te\" && hv == \"trailers\") {\n\t\t\tif !copiedHeaders {\n\t\t\t\toutreq.Header = make(bfe_http.Header, len(req.Header))\n\t\t\t\tbfe_http.CopyHeader(outreq.Header, req.Header)\n\t\t\t\tcopiedHeaders = true\n\t\t\t}\n\t\t\toutreq.Header.Del(h)\n\t\t}\n\t}\n}\n"},
+			{Name: "silent-defensive-empty-name", Silent: true, File: "bfe_server/reverseproxy.go", Old: "\t\tif hv == \"\" {\n\t\t\tcontinue\n\t\t}\n\n\t\tif h == \"Te\"", New: "\t\tif hv == \"\" || h == \"\" {\n\t\t\t// (the table has no empty name)\n\t\t\tcontinue\n\t\t}\n\n\t\tif h == \"Te\""},
 		},
 	})
 }
@@ -101,16 +105,19 @@ func runC26(c *core.Ctx) {
 	reqHeader := h1bField(c, "bfe_http", "Request.Header")
 	if wr := h1bFunc(c, "bfe_http", "Request.write"); wr != nil && reqHeader != nil {
 		n := 0
-		for _, ci := range core.AllCalls(wr) {
+		wrRegion := h1bRegionSet(c.P, wr)
+		for _, ci := range c.P.RegionCalls(wr, "bfe_http.Header.WriteSubset", "bfe_http.Header.Write", "bfe_http.Header.writeSubsetWithoutSort") {
 			cc := ci.Common()
-			if !core.CallIs(cc, "bfe_http.Header.WriteSubset", "bfe_http.Header.Write", "bfe_http.Header.writeSubsetWithoutSort") || len(cc.Args) == 0 {
+			if len(cc.Args) == 0 {
 				continue
 			}
-			if f, _ := h1bFieldOf(cc.Args[0]); f != reqHeader {
+			// (a header / exclude map handed to a private helper of Request.write is
+			// the argument at the helper's call site)
+			if f, _ := h1bFieldOf(h1bUp(c.P, wrRegion, cc.Args[0])); f != reqHeader {
 				continue // extraHeaders etc.
 			}
 			n++
-			ok := !core.CallIs(cc, "bfe_http.Header.Write") && len(cc.Args) == 3 && excludeGlobal(cc.Args[2])
+			ok := !core.CallIs(cc, "bfe_http.Header.Write") && len(cc.Args) == 3 && excludeGlobal(h1bUp(c.P, wrRegion, cc.Args[2]))
 			c.Check("exclude-used", fmt.Sprintf("Request.write:header-write#%d", n), ci.Pos(), ok,
 				"Request.write emits req.Header by "+core.Render(ci.Value())+"; it must go through WriteSubset/… with reqWriteExcludeHeader so that Transfer-Encoding, Trailer and Content-Length lines of the client are not copied to the backend")
 		}
@@ -256,171 +263,9 @@ func runC26(c *core.Ctx) {
 		c.Min("roundtrip-arg", 1)
 	}
 
-	// (c) inside hopByHopHeaderRemove
+	// (c) inside hopByHopHeaderRemove (and its private helpers)
 	if remove != nil && reqHeader != nil && len(remove.Params) == 2 {
-		outP := remove.Params[0]
-		onOut := func(v ssa.Value) bool {
-			f, base := h1bFieldOf(v)
-			return f == reqHeader && base == ssa.Value(outP)
-		}
-		isHopElem := func(v ssa.Value) bool {
-			u, ok := core.StripConv(v).(*ssa.UnOp)
-			if !ok || u.Op != token.MUL {
-				return false
-			}
-			ia, ok := u.X.(*ssa.IndexAddr)
-			if !ok {
-				return false
-			}
-			l, ok := ia.X.(*ssa.UnOp)
-			if !ok || l.Op != token.MUL {
-				return false
-			}
-			g, ok := l.X.(*ssa.Global)
-			return ok && g.Name() == "HopHeaders" && g.Pkg != nil && g.Pkg.Pkg.Path() == core.ModPath+"/bfe_basic"
-		}
-		dels := core.Calls(remove, "bfe_http.Header.Del")
-		var hopDels []ssa.Instruction
-		for i, d := range dels {
-			args := d.Common().Args
-			if len(args) != 2 || !isHopElem(args[1]) {
-				continue
-			}
-			hopDels = append(hopDels, d.(ssa.Instruction))
-			c.Check("hop-del", fmt.Sprintf("hopByHopHeaderRemove:del#%d:target", i+1), d.Pos(), onOut(args[0]),
-				"Header.Del of a HopHeaders element is applied to "+core.Render(args[0])+", not to the outgoing request's header (first parameter)")
-		}
-		c.Check("hop-del", "hopByHopHeaderRemove:loop", remove.Pos(), len(hopDels) >= 1,
-			"no Header.Del whose key is an element of bfe_basic.HopHeaders: the removal loop is gone")
-		c.Min("hop-del", 2)
-		isDel := func(x ssa.Instruction) bool {
-			for _, d := range hopDels {
-				if d == x {
-					return true
-				}
-			}
-			return false
-		}
-		// back edges of the loop around the Del that bypass it
-		for _, d := range hopDels {
-			var header *ssa.BasicBlock
-			for b := d.Block(); b != nil && header == nil; b = b.Idom() {
-				for _, p := range b.Preds {
-					if b.Dominates(p) && h1bReaches(d.Block(), p) {
-						header = b
-					}
-				}
-			}
-			if header == nil {
-				c.Check("hop-skip", "hopByHopHeaderRemove:loop-shape", d.Pos(), false, "the Del of a hop-by-hop element is not inside a loop")
-				continue
-			}
-			elem := d.(ssa.CallInstruction).Common().Args[1]
-			isGet := func(v ssa.Value) bool {
-				call := h1bCallOf(v, "bfe_http.Header.Get", "bfe_http.Header.GetDirect")
-				if call == nil || len(call.Call.Args) != 2 {
-					return false
-				}
-				return onOut(call.Call.Args[0]) && core.StripConv(call.Call.Args[1]) == core.StripConv(elem)
-			}
-			isLenGet := func(v ssa.Value) bool {
-				call, ok := core.StripConv(v).(*ssa.Call)
-				if !ok {
-					return false
-				}
-				b, ok := call.Call.Value.(*ssa.Builtin)
-				return ok && b.Name() == "len" && len(call.Call.Args) == 1 && isGet(call.Call.Args[0])
-			}
-			// blocks reachable from the header without executing the Del
-			seen := map[*ssa.BasicBlock]bool{header: true}
-			work := []*ssa.BasicBlock{header}
-			n := map[string]int{}
-			for len(work) > 0 {
-				b := work[len(work)-1]
-				work = work[:len(work)-1]
-				hasDel := false
-				for _, in := range b.Instrs {
-					if isDel(in) {
-						hasDel = true
-					}
-				}
-				if hasDel {
-					continue
-				}
-				for _, s := range b.Succs {
-					if s == header && b != header {
-						// a back edge that skipped the Del
-						fs := h1bFactsOnEdge(b, header)
-						empty, te, trailers := false, false, false
-						for _, f := range fs {
-							if h1bEq(f, isGet, h1bIsStr("")) || h1bEq(f, isLenGet, h1bIsInt(0)) {
-								empty = true
-							}
-							if h1bEq(f, h1bIsVal(core.StripConv(elem)), h1bIsStr("Te")) {
-								te = true
-							}
-							if h1bEq(f, isGet, h1bIsStr("trailers")) {
-								trailers = true
-							}
-						}
-						kind := "unjustified"
-						switch {
-						case empty:
-							kind = "empty-value"
-						case te && trailers:
-							kind = "te-trailers"
-						}
-						c.Check("hop-skip", h1bOrd("hopByHopHeaderRemove:"+kind, n), d.Pos(), kind != "unjustified",
-							"an iteration of the removal loop continues without Header.Del although neither `outreq.Header.Get(h) == \"\"` nor `h == \"Te\" && value == \"trailers\"` is established on that edge; established: "+h1bJoinFacts(fs))
-						continue
-					}
-					if !seen[s] && header.Dominates(s) {
-						seen[s] = true
-						work = append(work, s)
-					}
-				}
-			}
-		}
-		c.Min("hop-skip", 1)
-		// the removal is unconditional: no way through the function that bypasses
-		// the loop, and the loop is left only when the table is exhausted
-		emptyHeader := func(f h1bFact) bool {
-			isLenHdr := func(v ssa.Value) bool {
-				call, ok := core.StripConv(v).(*ssa.Call)
-				if !ok || len(call.Call.Args) != 1 {
-					return false
-				}
-				b, ok := call.Call.Value.(*ssa.Builtin)
-				return ok && b.Name() == "len" && onOut(call.Call.Args[0])
-			}
-			isNilK := func(v ssa.Value) bool { k, ok := v.(*ssa.Const); return ok && k.Value == nil }
-			return h1bEq(f, isLenHdr, h1bIsInt(0)) || h1bEq(f, onOut, isNilK)
-		}
-		for i, d := range hopDels {
-			header, body := c24NaturalLoop(d.Block())
-			if header == nil {
-				continue // reported as hop-skip loop-shape
-			}
-			key := fmt.Sprintf("hopByHopHeaderRemove:del#%d:", i+1)
-			bad := h1bReach(remove, nil, func(x ssa.Instruction) bool { return x.Block() == header }, emptyHeader, core.IsExit)
-			c.Check("hop-always", key+"no-bypass", d.Pos(), bad == nil,
-				"hopByHopHeaderRemove can return without entering the loop over bfe_basic.HopHeaders (an early exit that is not `the outgoing header is empty`): for the requests taking that exit every hop-by-hop field of the client is forwarded to the backend")
-			var early []string
-			for b := range body {
-				if b == header {
-					continue
-				}
-				for _, s := range b.Succs {
-					if !body[s] {
-						early = append(early, h1bJoinFacts(h1bFactsOnEdge(b, s)))
-					}
-				}
-			}
-			sort.Strings(early)
-			c.Check("hop-always", key+"whole-table", d.Pos(), len(early) == 0,
-				"the loop over bfe_basic.HopHeaders is left from inside its body (break / return under "+strings.Join(early, " | ")+"): the table entries after that element are never removed from the outgoing request")
-		}
-		c.Min("hop-always", 2)
+		c26RemovalLoop(c, remove, reqHeader, hop, okH)
 	}
 
 	// (d) Connection-listed fields
@@ -519,4 +364,170 @@ func h1bReaches(from, to *ssa.BasicBlock) bool {
 		}
 	}
 	return false
+}
+
+// c26RemovalLoop decides clause (c): the loop of hopByHopHeaderRemove. The
+// rule looks at the region of the function (helpers extracted from it are
+// inlined by the path search), identifies values structurally (the table
+// element, the outgoing header, the looked-up value) and decides skipped
+// iterations by paths: every way from the loop header back to the loop header
+// that does not execute the Del must establish `value == ""`, or
+// `element == "Te"` together with `value == "trailers"`, or a comparison of
+// the element with a name the table does not list (a branch that can never be
+// taken).
+func c26RemovalLoop(c *core.Ctx, remove *ssa.Function, reqHeader *types.Var, table []string, tableOK bool) {
+	p := c.P
+	region := h1bRegionSet(p, remove)
+	outP := ssa.Value(remove.Params[0])
+	inTable := map[string]bool{}
+	for _, h := range table {
+		inTable[h] = true
+	}
+	isHopElem := func(v ssa.Value) bool {
+		pk, name, ok := sh1GlobalElem(v)
+		return ok && pk == "bfe_basic" && name == "HopHeaders"
+	}
+	// static view (no path): parameters of helpers resolved at their call sites
+	onOutUp := func(v ssa.Value) bool {
+		f, base := h1bFieldOf(v)
+		return f == reqHeader && base != nil && h1bUp(p, region, base) == outP
+	}
+	type del struct {
+		in   ssa.Instruction
+		elem ssa.Value // the table element, as the loop sees it
+	}
+	var hopDels []del
+	n := 0
+	for _, d := range p.RegionCalls(remove, "bfe_http.Header.Del") {
+		args := d.Common().Args
+		if len(args) != 2 {
+			continue
+		}
+		elem := h1bUp(p, region, args[1])
+		if !isHopElem(elem) {
+			continue
+		}
+		n++
+		hopDels = append(hopDels, del{d.(ssa.Instruction), elem})
+		c.Check("hop-del", fmt.Sprintf("hopByHopHeaderRemove:del#%d:target", n), d.Pos(), onOutUp(args[0]) || onOutUp(h1bUp(p, region, args[0])),
+			"Header.Del of a HopHeaders element is applied to "+core.Render(args[0])+", not to the outgoing request's header (first parameter)")
+	}
+	c.Check("hop-del", "hopByHopHeaderRemove:loop", remove.Pos(), len(hopDels) >= 1,
+		"no Header.Del whose key is an element of bfe_basic.HopHeaders: the removal loop is gone")
+	c.Min("hop-del", 2)
+	isDel := func(x ssa.Instruction) bool {
+		for _, d := range hopDels {
+			if d.in == x {
+				return true
+			}
+		}
+		return false
+	}
+	// the loop that governs a Del: in the Del's function, or - the Del being in a
+	// helper called from the loop body - in a caller
+	loopOf := func(in ssa.Instruction) (*ssa.BasicBlock, map[*ssa.BasicBlock]bool) {
+		cur := []ssa.Instruction{in}
+		for d := 0; d < 4 && len(cur) > 0; d++ {
+			var next []ssa.Instruction
+			for _, x := range cur {
+				if h, body := c24NaturalLoop(x.Block()); h != nil {
+					return h, body
+				}
+				for _, cs := range h1bCallSitesIn(p, x.Parent(), region) {
+					next = append(next, cs)
+				}
+			}
+			cur = next
+		}
+		return nil, nil
+	}
+	for i, d := range hopDels {
+		header, body := loopOf(d.in)
+		if header == nil {
+			c.Check("hop-skip", "hopByHopHeaderRemove:loop-shape", d.in.Pos(), false, "the Del of a hop-by-hop element is not inside a loop")
+			continue
+		}
+		q := &h1bSearch{P: p, Anchor: remove, Trail: true}
+		onOut := func(v ssa.Value) bool {
+			f, base := h1bFieldOf(q.R(v))
+			return f == reqHeader && base != nil && q.R(base) == outP
+		}
+		isElem := func(v ssa.Value) bool { return q.R(v) == d.elem }
+		isGet := func(v ssa.Value) bool {
+			call := h1bCallOf(q.R(v), "bfe_http.Header.Get", "bfe_http.Header.GetDirect")
+			if call == nil || len(call.Call.Args) != 2 {
+				return false
+			}
+			return onOut(call.Call.Args[0]) && isElem(call.Call.Args[1])
+		}
+		isLenGet := func(v ssa.Value) bool {
+			call, ok := q.R(v).(*ssa.Call)
+			if !ok {
+				return false
+			}
+			b, ok := call.Call.Value.(*ssa.Builtin)
+			return ok && b.Name() == "len" && len(call.Call.Args) == 1 && isGet(call.Call.Args[0])
+		}
+		notListed := func(v ssa.Value) bool {
+			s, ok := core.ConstString(q.R(v))
+			return ok && tableOK && !inTable[s]
+		}
+		q.Avoid = isDel
+		q.Track = []func(h1bFact) bool{
+			func(f h1bFact) bool { return h1bEq(f, isGet, h1bIsStr("")) || h1bEq(f, isLenGet, h1bIsInt(0)) },
+			func(f h1bFact) bool { return h1bEq(f, isElem, h1bIsStr("Te")) },
+			func(f h1bFact) bool { return h1bEq(f, isGet, h1bIsStr("trailers")) },
+			func(f h1bFact) bool { return h1bEq(f, isElem, notListed) },
+		}
+		q.Blocked = func(m uint) bool { return m&1 != 0 || m&8 != 0 || m&2 != 0 && m&4 != 0 }
+		first := header.Instrs[0]
+		q.Target = func(x ssa.Instruction) bool { return x == first }
+		bad := q.Reach(first)
+		key := "hopByHopHeaderRemove:unjustified"
+		if i > 0 {
+			key = fmt.Sprintf("hopByHopHeaderRemove:unjustified#%d", i+1)
+		}
+		c.Check("hop-skip", key, d.in.Pos(), bad == nil,
+			"an iteration of the removal loop continues without Header.Del although neither `outreq.Header.Get(h) == \"\"` nor `h == \"Te\" && value == \"trailers\"` is established on that path; established: "+h1bJoinFacts(q.HitFacts))
+		// the removal is unconditional: no way through the function that bypasses
+		// the loop, and the loop is left only when the table is exhausted
+		q2 := &h1bSearch{P: p, Anchor: remove}
+		onOut2 := func(v ssa.Value) bool {
+			f, base := h1bFieldOf(q2.R(v))
+			return f == reqHeader && base != nil && q2.R(base) == outP
+		}
+		q2.Avoid = func(x ssa.Instruction) bool { return x.Block() == header }
+		q2.AvoidFact = func(f h1bFact) bool {
+			isLenHdr := func(v ssa.Value) bool {
+				call, ok := q2.R(v).(*ssa.Call)
+				if !ok || len(call.Call.Args) != 1 {
+					return false
+				}
+				b, ok := call.Call.Value.(*ssa.Builtin)
+				return ok && b.Name() == "len" && onOut2(call.Call.Args[0])
+			}
+			isNilK := func(v ssa.Value) bool { k, ok := v.(*ssa.Const); return ok && k.Value == nil }
+			return h1bEq(f, isLenHdr, h1bIsInt(0)) || h1bEq(f, onOut2, isNilK)
+		}
+		q2.Target = core.IsExit
+		key2 := fmt.Sprintf("hopByHopHeaderRemove:del#%d:", i+1)
+		c.Check("hop-always", key2+"no-bypass", d.in.Pos(), q2.Reach(nil) == nil,
+			"hopByHopHeaderRemove can return without entering the loop over bfe_basic.HopHeaders (an early exit that is not `the outgoing header is empty`): for the requests taking that exit every hop-by-hop field of the client is forwarded to the backend")
+		var early []string
+		for b := range body {
+			if b == header {
+				continue
+			}
+			for _, s := range b.Succs {
+				if !body[s] {
+					early = append(early, h1bJoinFacts(h1bFactsOnEdge(b, s)))
+				}
+			}
+		}
+		sort.Strings(early)
+		c.Check("hop-always", key2+"whole-table", d.in.Pos(), len(early) == 0,
+			"the loop over bfe_basic.HopHeaders is left from inside its body (break / return under "+strings.Join(early, " | ")+"): the table entries after that element are never removed from the outgoing request")
+	}
+	c.Min("hop-skip", 1)
+	c.Min("hop-always", 2)
 }
